@@ -859,7 +859,7 @@ def _parse_phase_rest(
                     )
         elif not intermediate_repr["doc"]:
             intermediate_repr["doc"] = line.strip()
-    if param:
+    if param[0] is not None:
         # if param['name'] == 'return_type': intermediate_repr['returns'] = param
         name, param = _set_name_and_type(
             interpolate_defaults(param, emit_default_doc=emit_default_doc),
